@@ -274,6 +274,7 @@ fn run_inner(def: &PropDef, tier: Tier, seed: u64, jobs_max: usize, scratch: &Pa
     };
     let mut machinery_errors: Vec<String> = Vec::new();
     let max_restarts = 40;
+    let mut confirmed_deaths: BTreeMap<(String, u64), u32> = BTreeMap::new();
     while !queue.is_empty() || !running.is_empty() {
         while running.len() < jobs_max && !queue.is_empty() {
             let j = queue.pop().unwrap();
@@ -338,10 +339,15 @@ fn run_inner(def: &PropDef, tier: Tier, seed: u64, jobs_max: usize, scratch: &Pa
         match parse_crash(&pre) {
             Some((kind, signo, case_no)) if case_no > 0 => {
                 merged.crashes += 1;
-                // reproduce that single case twice in fresh processes, materialising it first
-                let mut same = 0;
+                // reproduce that single case twice in fresh processes, materialising it first.
+                // Once the same kind of death has been confirmed a few times in this run, later
+                // ones are attributed without the (slow) reproduction and hung shards are not
+                // resumed: the verdict is already decided, only coverage is lost (and reported).
+                let confirmed_before = *confirmed_deaths.get(&(kind.clone(), signo)).unwrap_or(&0);
+                let skip_repro = confirmed_before >= if kind == "HANG" { 1 } else { 3 };
+                let mut same = if skip_repro { 2 } else { 0 };
                 let mut case_json = Value::Null;
-                for rep in 0..2 {
+                for rep in 0..(if skip_repro { 0 } else { 2 }) {
                     let rj = Job {
                         profile: j.profile.clone(),
                         shard: j.shard,
@@ -362,6 +368,7 @@ fn run_inner(def: &PropDef, tier: Tier, seed: u64, jobs_max: usize, scratch: &Pa
                     }
                 }
                 if same == 2 {
+                    *confirmed_deaths.entry((kind.clone(), signo)).or_insert(0) += 1;
                     let what = if kind == "HANG" {
                         "hang (no progress for the watchdog interval)".to_string()
                     } else {
@@ -387,7 +394,9 @@ fn run_inner(def: &PropDef, tier: Tier, seed: u64, jobs_max: usize, scratch: &Pa
                         j.profile, j.shard
                     ));
                 }
-                if j.attempt < max_restarts {
+                // hangs cost a watchdog interval each: one resume per shard, then give up on it
+                let limit = if kind == "HANG" { if skip_repro { 0 } else { 1 } } else { max_restarts };
+                if j.attempt < limit {
                     // partial results of the dead worker are lost; resume after the fatal case
                     queue.push(Job {
                         profile: j.profile.clone(),
@@ -445,14 +454,33 @@ fn run_inner(def: &PropDef, tier: Tier, seed: u64, jobs_max: usize, scratch: &Pa
         let mut reproduced = true;
         if case.get("kind").and_then(|x| x.as_str()) != Some("fd") && !case.is_null() && n_new + n_known < 24 {
             for _ in 0..2 {
-                let st = Command::new(bin_for(profile))
+                let child = Command::new(bin_for(profile))
                     .arg("replay")
                     .arg(&path)
                     .stdin(Stdio::null())
                     .stdout(Stdio::null())
                     .stderr(Stdio::null())
-                    .status();
-                match st.ok().and_then(|s| s.code()) {
+                    .spawn();
+                let code = match child {
+                    Ok(mut ch) => {
+                        // the replay process has its own 20 s watchdog; belt and braces here
+                        let t = Instant::now();
+                        loop {
+                            match ch.try_wait() {
+                                Ok(Some(st)) => break st.code(),
+                                Ok(None) if t.elapsed().as_secs() > 120 => {
+                                    let _ = ch.kill();
+                                    let _ = ch.wait();
+                                    break Some(135);
+                                }
+                                Ok(None) => std::thread::sleep(std::time::Duration::from_millis(10)),
+                                Err(_) => break None,
+                            }
+                        }
+                    }
+                    Err(_) => Some(2),
+                };
+                match code {
                     Some(1) | None | Some(134) | Some(135) => (),
                     _ => reproduced = false,
                 }
